@@ -119,6 +119,12 @@ def path_api(patterns):
     """~30 patterns in one API; the resource is made visible in three different ways (i mod 3)."""
     msgs, defs, reqf, midf = [], [], [dict(name='name')], [dict(name='x')]
     for i, p in patterns:
+        if isinstance(i, str):
+            # a message resource whose short type name equals one of the common resources (ex.com/Folder): its helpers
+            # <name>_path / parse_<name>_path live next to common_<name>_path / parse_common_<name>_path
+            msgs.append(dict(name=i, resource=dict(type=f'ex.com/{i}', patterns=[p]), fields=[dict(name='name')]))
+            reqf.append(dict(name=f'own_{i.lower()}', type=i))
+            continue
         typ = f'ex.com/R{i}'
         how = i % 3
         if how == 1:
@@ -421,20 +427,48 @@ def main(chk, args):
     plist = [p for p in patterns if not bypat[p][0]['common']]
     commons = [p for p in patterns if bypat[p][0]['common']]
 
+    # Variable names are positional in the specification (VarName(i)); the concrete names are a choice of the
+    # concretisation.  The second API of each template set spells them with reserved (non-keyword) words: the keyword
+    # of <name>_path and the key of the parsed dict must both be the name written in the pattern.
+    RESERVED_VARS = ['object', 'type', 'format', 'license', 'list', 'range', 'hash', 'slice']
+
+    def rename(c0, nm):
+        if not nm:
+            return c0
+        c = dict(c0)
+        c['pattern'] = _ARG.sub(lambda m: '{' + nm.get(m.group(1), m.group(1)) + (m.group(2) or '') + '}', c0['pattern'])
+        c['names'] = [nm.get(n, n) for n in c0['names']]
+        return c
+
     def pack(plist, ads):
         """~30 patterns per API; the five common resources ride on the first API of each template set."""
         nonlocal cid
         for a in range(0, len(plist), PER_API):
             chunk = list(enumerate(plist[a:a + PER_API]))
             la, lb = rnd.sample(POOL, 2) if a else ('a', 'b')
+            special = (a == PER_API) or (len(plist) <= PER_API)
+            nmap = {}
+            if special:
+                for _, p in chunk:
+                    for n in bypat[p][0]['names']:
+                        nmap.setdefault(n, RESERVED_VARS[len(nmap) % len(RESERVED_VARS)])
             resources = []
-            for i, p in chunk + ([(None, p) for p in commons] if a == 0 else []):
+            entries = chunk + ([(None, p) for p in commons] if a == 0 else [])
+            if a == 0 and commons and len(plist) >= 2:
+                # same short name as a common resource, another pattern: one listed (and called) before the common
+                # helpers, one after them
+                two = [p for p in plist if bypat[p][0]['nvars'] == 2][:1] or plist[:1]
+                one = [p for p in plist if bypat[p][0]['nvars'] == 1 and p not in two][:1] or plist[-1:]
+                entries = [('Folder', two[0])] + entries + [('Project', one[0])]
+            api_chunk = []
+            for i, p in entries:
                 if i is None:
                     la_, lb_ = 'a', 'b'      # literals of the common patterns contain the letters a and b
                 else:
                     la_, lb_ = la, lb
+                    api_chunk.append((i, rename(bypat[p][0], nmap)['pattern'] if not isinstance(i, str) else p))
                 calls = []
-                todo = bypat[p]
+                todo = [rename(c0, nmap if isinstance(i, int) else {}) for c0 in bypat[p]]
                 if ads and len(todo) > 60:      # the Ads share: a seeded sample of the rounds of this pattern
                     todo = [todo[j] for j in sorted(rnd.sample(range(len(todo)), 60))]
                 for c0 in todo:
@@ -442,14 +476,15 @@ def main(chk, args):
                     c['_T'] = (lambda s, la=la_, lb=lb_: ''.join(la if ch == 'a' else lb if ch == 'b' else ch for ch in s))
                     c['_cmap'] = {'a': la_, 'b': lb_}
                     c['_ads'] = ads
+                    c['_tag'] = f'own-{i.lower()}:' if isinstance(i, str) else ''
                     c['_args'] = [c['_T'](v) for v in c['args']]
                     c['_kwargs'] = dict(zip(c['names'], c['_args']))
                     meta[cid] = c
                     calls.append(dict(id=cid, kind=c['kind'], args=c['_kwargs'], str=c['_T'](c['str'])))
                     cid += 1
-                resources.append(dict(service='Rp', helper=f'r{i}' if i is not None else 'common_' + bypat[p][0]['common'],
-                                      calls=calls))
-            jobs.append(dict(api=path_api(chunk), opts=ADS_OPTS if ads else OPTS,
+                resources.append(dict(service='Rp', helper=i.lower() if isinstance(i, str) else f'r{i}' if i is not None
+                                      else 'common_' + bypat[p][0]['common'], calls=calls))
+            jobs.append(dict(api=path_api(api_chunk), opts=ADS_OPTS if ads else OPTS,
                              payload=dict(module=ADS_MODULE if ads else MODULE, services=[dict(name='Rp')], inventory=False,
                                           sync_only=ads, resources=resources)))
 
@@ -509,7 +544,7 @@ def main(chk, args):
                  nontrivial=c['nvars'] >= 1 and (bool(c['parsed']) or c['kind'] == 'foreign'))
         outside += 0 if c['inq'] else 1
         for cls, text in classify(c, o, c['_T']):
-            bad.setdefault(('ads:' if c['_ads'] else '') + f'{cls}:{c["pattern"]}', []).append((c, o, ('[Ads templates] ' if c['_ads'] else '') + text))
+            bad.setdefault(('ads:' if c['_ads'] else '') + c.get('_tag', '') + f'{cls}:{c["pattern"]}', []).append((c, o, ('[Ads templates] ' if c['_ads'] else '') + text))
             if cls not in ('helper', 'async'):         # the recorded steps themselves disagree with the specification
                 flagged.add(i)
     per_class = {}
